@@ -215,8 +215,30 @@ def exposure_same_price(sid, side="LAY", n=3, price=3.0, size=4.0, limit=20.0):
             "strategies": [{"name": "A", "max_selection_exposure": limit, "max_order_exposure": limit, "max_live_trade_count": 10, "script": script}]}
 
 
+def exposure_hedged_order(sid, first=("BACK", 5.0, 10.0), second=("LAY", 3.0, 12.0), order_limit=10.0, selection_limit=10.0, market_limit=None):
+    """a matched position on the selection, then an order of the opposite side whose OWN loss is beyond the per-order limit
+    while the selection as a whole stays within its limit thanks to the hedge: the per-order limit binds on its own"""
+    s1, p1, z1 = first
+    s2, p2, z2 = second
+    def up(pt):
+        # both orders can be matched at once (prices available on both sides of each)
+        return {"pt": pt, "version": 1, "books": {"11": _bk([[p1, 500]] if s1 == "BACK" else [[p2, 500]], [[p2, 500]] if s2 == "LAY" else [[p1, 500]], []),
+                                                  "12": _bk([[3.0, 10]], [[3.4, 10]], [])}}
+    ups = [up(1000 * k) for k in range(7)]
+    script = {"1.100000001|0|book": [{"op": "place", "o": "h1", "t": "th1", "sel": 11, "side": s1, "price": p1, "size": z1}],
+              "1.100000001|3000|book": [{"op": "place", "o": "h2", "t": "th2", "sel": 11, "side": s2, "price": p2, "size": z2}]}
+    st = {"name": "A", "max_order_exposure": order_limit, "max_selection_exposure": selection_limit, "max_live_trade_count": 10, "script": script}
+    if market_limit is not None:
+        st["max_market_exposure"] = market_limit
+    return {"id": sid, "cfg": {}, "markets": [{"id": "1.100000001", "event_id": "30000001", "market_type": "WIN", "winners": 1, "bsp": True, "persistence": True, "runners": [11, 12], "updates": ups}],
+            "strategies": [st]}
+
+
 def family_exposure(tier, seed):
-    out = [exposure_same_price("x_exp_same_price_lay"), exposure_same_price("x_exp_same_price_back", side="BACK", limit=10.0),
+    out = [exposure_hedged_order("x_exp_hedged_lay"), exposure_hedged_order("x_exp_hedged_lay_sel5", selection_limit=5.0, first=("BACK", 5.0, 5.0)),
+           exposure_hedged_order("x_exp_hedged_back", first=("LAY", 3.0, 5.0), second=("BACK", 2.0, 13.0)),
+           exposure_hedged_order("x_exp_hedged_lay_mkt", market_limit=50.0), exposure_hedged_order("x_exp_hedged_lay_ord20", order_limit=20.0, selection_limit=10.0),
+           exposure_same_price("x_exp_same_price_lay"), exposure_same_price("x_exp_same_price_back", side="BACK", limit=10.0),
            exposure_same_price("x_exp_same_price_lay2", price=2.5, size=6.0, limit=20.0),
            exposure_cancel_then_place("x_exp_cancel_place"), exposure_cancel_then_place("x_exp_cancel_part_place", partial=4.0),
            exposure_cancel_then_place("x_exp_cancel_place_slow", gap=500),
